@@ -1043,7 +1043,7 @@ def c13_q3(ctx):
         mfin = re.match(r"^(\w+)\.filestore_response$", txt)
         if mfin and eb.var_defs(mfin.group(1)) and all("@Finished.0" in expr_str(x) for x in eb.var_defs(mfin.group(1))):
             yield ok("C13-Q3", key, at(f, s["span"]["line"]), txt)
-        elif f.name == "send_pdu" and "self." not in txt and "finished" not in txt:
-            yield ok("C13-Q3", key, at(f, s["span"]["line"]), "no-closure unacknowledged end reports no responses: " + txt[:80])
+        elif "self." not in txt and not re.search(r"\.filestore_response", txt) and re.search(r"(Vec::new\(\)|into_vec|box_assume_init_into_vec_unsafe|vec::from_elem)", txt):
+            yield ok("C13-Q3", key, at(f, s["span"]["line"]), "an end without a Finished PDU (unacknowledged, no closure) reports an empty response list: " + txt[:80])
         else:
             yield bad("C13-Q3", key, at(f, s["span"]["line"]), "sender indication responses come from %s" % txt)
